@@ -89,7 +89,20 @@ def rel_err(got, ref):
     return float(np.max(np.abs(got.astype(np.complex128) - ref.astype(np.complex128))) / max(1.0, float(np.max(np.abs(ref)))))
 
 
-def run_fft_case(c, x, dtype, expected=None, norm=None, dask=True, positional=False):
+ORDER1, ORDERN = ("n", "axis", "norm"), ("s", "axes", "norm")
+DEFAULTS = {"n": None, "axis": -1, "s": None, "axes": None, "norm": None}     # the documented defaults of scipy.fft
+
+
+def call_form(name, kw, form):
+    """Call form `form` in 0..3: the first `form` parameters after x are passed positionally (a parameter the case does
+    not set is then passed as its documented default), the rest by keyword.  -> (args, kwargs)"""
+    order = ORDER1 if name in NAMES1 else ORDERN
+    dflt = dict(DEFAULTS, axes=(-2, -1)) if name.endswith("2") else DEFAULTS
+    args = tuple(kw.get(k, dflt[k]) for k in order[:form])
+    return args, {k: v for k, v in kw.items() if k not in order[:form]}
+
+
+def run_fft_case(c, x, dtype, expected=None, norm=None, dask=True, form=0):
     """-> (list of (key, description), dask judged?)"""
     import scipy.fft
     import dask.array as da
@@ -100,13 +113,11 @@ def run_fft_case(c, x, dtype, expected=None, norm=None, dask=True, positional=Fa
     single = a.dtype in (np.float32, np.complex64)
     tol_spec = 1e-5 if single else 1e-12
     tol_same = 1e-6 if single else 1e-14
-    what = "pb.fft.%s(%s%r array%s)" % (name, dtype, tuple(c["sh"]), "".join(", %s=%r" % kv for kv in kw.items()))
+    form = {True: 2, False: 0}.get(form, form) if isinstance(form, bool) else int(form)
+    args, kw2 = call_form(name, kw, form)
+    what = "pb.fft.%s(%s%r array%s%s)" % (name, dtype, tuple(c["sh"]), "".join(", %r" % (v,) for v in args),
+                                          "".join(", %s=%r" % kv for kv in kw2.items()))
     bad = []
-    args = ()
-    if positional and name in NAMES1 and "n" in kw and "axis" in kw:
-        args, kw2 = (kw["n"], kw["axis"]), {k: v for k, v in kw.items() if k == "norm"}
-    else:
-        kw2 = kw
     with warnings.catch_warnings():
         warnings.simplefilter("ignore")
         try:
@@ -144,8 +155,8 @@ def run_fft_case(c, x, dtype, expected=None, norm=None, dask=True, positional=Fa
         # ---- Dask: chunked off the transformed axes, lazy
         nb = len(bad)
         bad2, judged = _dask_part(c, a, name, what, args, kw2, ref, tol_same)
-        if name.endswith("n") and "s" in kw2 and "axes" not in kw2 and len(kw2["s"]) < a.ndim:
-            bad2 = [("dask:s-shorter-than-ndim-without-axes", d + "  [with axes=None dask.array.fft applies s to the FIRST len(s) axes, "
+        if name.endswith("n") and "s" in kw and "axes" not in kw and len(kw["s"]) < a.ndim:
+            bad2 = [("dask:s-shorter-than-ndim-" + ("without-axes" if form < 2 else "axes-none-positional"), d + "  [with axes=None dask.array.fft applies s to the FIRST len(s) axes, "
                      "scipy.fft / numpy.fft to the LAST len(s) axes]") for k, d in bad2[:1]]
         return bad + bad2, judged
 
@@ -201,13 +212,17 @@ def replay_fft(chk, recs, rnd):
         c, x = rec["c"], rec["x"]
         exp = expected_array(rec)
         dts = ["complex128", "complex64"] if c["kind"] == "complex" else ["float64", "float32", "int32"]
-        runs = [(dts[0], exp, None, True, False), (dts[1], exp, None, thorough or i % 3 == 0, i % 5 == 0)]
+        # call forms: every case is called with two complementary forms (0 and 2, or 1 and 3 leading parameters
+        # positional) on both backends, so that every parameter is passed positionally and by keyword
+        f = i % 4
+        runs = [(dts[0], exp, None, True, f), (dts[0], exp, None, True, (f + 2) % 4),
+                (dts[1], exp, None, thorough or i % 3 == 0, (f + 1) % 4)]
         if len(dts) > 2 and (thorough or i % 4 == 0):
-            runs.append((dts[2], exp, None, False, False))
+            runs.append((dts[2], exp, None, False, (f + 3) % 4))
         # reference-only variants: every normalisation for this argument combination
         if c["norm"] == "none":
             for nm in NORMS if (thorough or i % 2 == 0) else [NORMS[i % 3]]:
-                runs.append((dts[i % 2], None, nm, thorough or i % 4 == 1, False))
+                runs.append((dts[i % 2], None, nm, thorough or i % 4 == 1, (f + 1 + NORMS.index(nm)) % 4))
         for dt, e, nm, dk, pos in runs:
             bad, judged = run_fft_case(c, x, dt, e, nm, dk, pos)
             n += 1
@@ -218,7 +233,7 @@ def replay_fft(chk, recs, rnd):
                     chk.machinery_errors.append(desc)
                     continue
                 k2 = "fft:%s:%s" % (key, c["name"])
-                chk.violation(k2, desc, {"kind": "fft", "c": c, "x": x, "dtype": dt, "norm": nm, "dask": dk, "positional": pos,
+                chk.violation(k2, desc, {"kind": "fft", "c": c, "x": x, "dtype": dt, "norm": nm, "dask": dk, "form": pos,
                                          "out": rec["out"] if e is not None else None})
                 keyed.add(k2)
         if i % 700 == 5:
@@ -587,7 +602,7 @@ def replay(doc):
         exp = None
         if c.get("out"):
             exp = expected_array({"out": c["out"]})
-        bad, _ = run_fft_case(c["c"], c["x"], c["dtype"], exp, c["norm"], c["dask"], c["positional"])
+        bad, _ = run_fft_case(c["c"], c["x"], c["dtype"], exp, c["norm"], c["dask"], c.get("form", c.get("positional", 0)))
         bad = [("fft:%s:%s" % (k, c["c"]["name"]), d) for k, d in bad]
     elif kind == "stft":
         bad = replay_stft_case(c["rec"], c["dual"], c["dtype"], c["dask"], c["kwi"])
